@@ -257,6 +257,40 @@ async function runJob(job, cg) {
   }
   return out;
 }
+// C16: replay call sequences on real SchemaPrintingContexts; log the projected state after every call
+async function runCtxSeq(job, cg) {
+  const out = { id: job.id, load: "ok", loadmsg: "", fresh: [], runs: [] };
+  let parsers;
+  try {
+    const mod = await loadModule(job.code, [], []);
+    parsers = mod.buildParsers({ stringFormats: STRING_FORMATS, numberFormats: NUMBER_FORMATS });
+  } catch (e) {
+    out.load = "fail";
+    out.loadmsg = errMsg(e);
+    return out;
+  }
+  const mk = (cfg) =>
+    new cg.SchemaPrintingContext({
+      refPathTemplate: cfg.refPathTemplate,
+      definitionContainerKey: cfg.definitionContainerKey,
+      ...(cfg.overrides ? { namedTypeSchemaOverrides: Object.fromEntries(Object.entries(cfg.overrides).map(([k, v]) => [k, parsers[v]])) } : {}),
+    });
+  const step = (pc, p) => {
+    const s = schemaObs(() => parsers[p].schemaWithContext(pc));
+    return { p, ok: s.ok, msg: s.msg, schema: s.s, schemajson: s.json,
+             defs: encode({ ...(pc.collectedDefinitions ?? {}) }), defsjson: { ...(pc.collectedDefinitions ?? {}) },
+             inprog: Object.keys(pc.inProgressDefinitions ?? {}) };
+  };
+  job.cfgs.forEach((cfg, ci) => {
+    for (const p of job.parsers) out.fresh.push({ cfg: ci, ...step(mk(cfg), p) });
+  });
+  for (const sq of job.seqs) {
+    const pc = mk(job.cfgs[sq.cfg]);
+    out.runs.push({ sid: sq.sid, cfg: sq.cfg, steps: sq.calls.map((p) => step(pc, p)) });
+  }
+  return out;
+}
+
 function tri2(f) {
   try {
     return { ok: true, v: String(f()), msg: "" };
@@ -285,6 +319,8 @@ async function main() {
       if (job.kind === "selftest") {
         selftest(job.terms);
         res = { id: job.id, selftest: "ok", n: job.terms.length };
+      } else if (job.kind === "ctxseq") {
+        res = await runCtxSeq(job, cg);
       } else {
         res = await runJob(job, cg);
       }
